@@ -341,8 +341,10 @@ def select__child_path(self: XPathToken, context: ta.ContextType = None) \
             return  # No root or a rooted subtree -> document root produce []
         else:
             context.item = context.root  # A fragment or a schema node
-        yield from self[0].select(context)
-        context.item = item  # give the focus back to the enclosing expression
+        try:
+            yield from self[0].select(context)
+        finally:
+            context.item = item  # give the focus back to the enclosing expression, also when a step raises
     else:
         items: set[ta.ItemType] = set()
         results: list[ta.ItemType] = []
@@ -410,19 +412,20 @@ def select__descendant_path(self: XPathToken, context: ta.ContextType = None) \
             context.item = context.root  # A fragment or a schema node
 
         items = set()
-        for _ in context.iter_descendants():
-            for result in self[0].select(context):
-                if not isinstance(result, XPathNode):
-                    yield result
-                elif result in items:
-                    pass
-                elif isinstance(result, ElementNode):
-                    if result.value not in items:
+        try:
+            for _ in context.iter_descendants():
+                for result in self[0].select(context):
+                    if not isinstance(result, XPathNode):
+                        yield result
+                    elif result in items:
+                        pass
+                    elif isinstance(result, ElementNode):
+                        if result.value not in items:
+                            items.add(result)
+                    else:
                         items.add(result)
-                else:
-                    items.add(result)
-
-        context.item = item  # give the focus back to the enclosing expression
+        finally:
+            context.item = item  # give the focus back to the enclosing expression, also when a step raises
         yield from sorted(items, key=node_position)
 
 
